@@ -39,12 +39,12 @@ def plan(tier: str):
 
 def run(tier: str) -> int:
     res = Result('C14', tier)
-    r = tlc.run_tlc('MonteCarlo', 'MC_MonteCarlo.cfg', workers=16, timeout=900)
+    r = tlc.run_tlc('MonteCarlo', 'MC_MonteCarlo.cfg', workers=16, timeout=2400)
     tlc.check_mc(r, 'MC_MonteCarlo.cfg', ['Acquire', 'AppendRow', 'Release', 'SimulateFail'])
     if r['violated']:
         raise MachineryFailure(f'MonteCarlo.tla violates {r["violated"]}')
     res.add_mc(r, 'MC_MonteCarlo.cfg')
-    rt = tlc.run_tlc('MonteCarlo', 'MC_MonteCarlo_timeouts.cfg', workers=8, timeout=300)
+    rt = tlc.run_tlc('MonteCarlo', 'MC_MonteCarlo_timeouts.cfg', workers=8, timeout=2400)
     res.cov['design_observation_lock_timeout'] = f'with pylocker timeouts enabled the model violates {rt["violated"]} (a row is dropped when the lock is not obtained)'
     traces, raw = execute(plan(tier), replay=True)
     counts = judge(res, traces, raw, CLAUSES, 'C14')
